@@ -262,7 +262,15 @@ def run(chk):
     if st:
         ok = any(core.describe(prog, st, t["args"][1])[0:3] == ("variant", "humphrey::thread::pool::Message", "Shutdown") for blk, t in st.calls_to(r"mpsc::Sender::<T>::send$"))
         chk.ob("R5.stop", st.path, "stop() queues Message::Shutdown behind the pending tasks", ok, "")
-    # ---- R6 / R7: joins
+    join_rules(chk, prog, None)
+
+
+def join_rules(chk, prog, prefix):
+    """R6/R7: no join on a thread that cannot return; no join while holding a lock the joined thread takes."""
+    r6 = "R6.join_immortal" if prefix is None else prefix
+    r7 = "R7.lock_order" if prefix is None else prefix
+    rid = "R6.join_identified" if prefix is None else prefix
+    sp = spawned_closures(prog)
     owners = {}
     for sb, blk, c in sp:
         o = owner_struct(prog, sb, blk)
@@ -288,7 +296,7 @@ def run(chk):
             joined = [c for o, c in owners.items() if any(o.split("::")[-1] in ty for ty in tys)]
             what = ",".join(sorted(core.short(c.path) for c in joined)) or "?"
             for c in joined:
-                chk.ob("R6.join_immortal", p, f"join of a thread whose body can return ({core.short(c.path)})", not diverges(c),
+                chk.ob(r6, p, f"join of a thread whose body can return ({core.short(c.path)})", not diverges(c),
                        f"{core.short(c.path)} has no reachable return (it loops forever and owns a Sender of its own channel), so this join never "
                        f"returns: dropping a started pool without stop() blocks the caller forever", where=b.where(blk))
                 e = prog.elab.get(p)
@@ -298,7 +306,7 @@ def run(chk):
                         held = set(v for v in locks.held_locks(e, jb).values() if v)
                         taken = locks_taken(prog, c)
                         clash = held & taken
-                        chk.ob("R7.lock_order", p, f"no lock of the joined thread held across join ({core.short(c.path)})", not clash,
+                        chk.ob(r7, p, f"no lock of the joined thread held across join ({core.short(c.path)})", not clash,
                                f"join while holding {clash}, which the joined thread also takes: deadlock", where=e.where(jb))
-            chk.ob("R6.join_identified", p, f"joined thread identified: {what}", bool(joined), "could not tell which thread is joined", where=b.where(blk))
+            chk.ob(rid, p, f"joined thread identified: {what}", bool(joined), "could not tell which thread is joined", where=b.where(blk))
     chk.extra["join_sites"] = joins
